@@ -355,7 +355,7 @@ package multiplex
 //@   requires closable(sesh) && !held(sesh.streamsM) && locksBelow(sesh.streamsM)
 //@   # C12/C03: the closing notice is a session-closing frame with 1..256 padding bytes, sent only by the
 //@   # caller that won the CAS; afterwards every connection is closed
-//@   atcall obfuscate requires closingNotice: f.Closing == closingSession && len(f.Payload) >= 1 && len(f.Payload) <= 256
+//@   atcall obfuscate requires closingNotice: f.Closing == closingSession && len(f.Payload) >= 1 && len(f.Payload) <= 256 && f.StreamID == 4294967295 && f.Seq == 0
 //@   atcall send requires afterCloseSession: succeeded("(*Session).closeSession")
 //@   ensures connectionsClosed: ret0 == nil ==> called("(*switchboard).closeAll")
 //@   ensures locks: holdsAsAtEntry()
